@@ -1,16 +1,17 @@
 (* C03 — Reported best hand is a sorted five-card witness drawn from the input.
-   Statements only; proofs in Proofs/TableFacts.v (they need the slot tables to be well formed - five
-   distinct in-range indices per row - but NOT complete; completeness matters for C02 / C09 only). *)
+   Statements only; proofs in Proofs/FreeFacts.v. They need the slot tables to be well formed (five
+   distinct in-range indices per row) and the lookup tables to have their lengths, but NOT the contents of
+   the lookup tables nor completeness of the slot tables (those matter for C01 / C02 / C09). *)
 From CKC Require Import Base.Prelude Base.SortN Spec.Layout.
-From CKC Require Import Model.Five Proofs.C01 Proofs.TableFacts.
+From CKC Require Import Model.Five Proofs.FreeFacts.
 Open Scope N_scope.
 
 (* five-card input: whenever ranking returns, the reported hand is the input unchanged (ANY words) *)
 Theorem C03_five_identity : forall chk ws v h, length ws = 5%nat -> hrvh chk ws = Ok (v, h) -> h = ws.
 Proof. exact five_identity. Qed.
 (* ... and on five distinct real cards it does return *)
-Theorem C03_five : forall chk ws, Hand5 ws -> exists v, hrvh chk ws = Ok (v, ws).
-Proof. intros chk ws H. eexists. exact (proj1 (proj2 (value_ok chk ws H))). Qed.
+Theorem C03_five : forall chk ws, length ws = 5%nat -> Forall RealCard ws -> exists v, hrvh chk ws = Ok (v, ws).
+Proof. exact five_returns. Qed.
 
 (* six / seven distinct real cards: five distinct cards, all from the input, in non-increasing (hence
    strictly descending) numeric order, whose own ranking gives exactly the reported value *)
@@ -20,7 +21,7 @@ Theorem C03_witness : forall chk n ws,
     hrvh chk ws = Ok (v, h) /\ hand_rank_value chk ws = Ok v /\
     length h = 5%nat /\ NoDup h /\ incl h ws /\ noninc h /\ Forall RealCard h /\
     hrvh chk h = Ok (v, h) /\ hand_rank_value chk h = Ok v.
-Proof. exact witness_ok. Qed.
+Proof. exact witness_free. Qed.
 
 Example C03_example :
   hrvh false [layout 0 0; layout 12 3; layout 11 3; layout 1 1; layout 10 3; layout 9 3; layout 8 3]
